@@ -25,6 +25,8 @@ EXTRACT = ["maxRedirects"]
 ASSUMPTIONS = [
     "a 'connection' is a call of GeminiClient._get_single (the only place that opens a transport); the pin check of every hop is inside _get_single and is covered by C03/C11",
     "thorough tier additionally runs chains against scripted loopback TLS servers (family live)",
+    "family live: a start URL or a redirect target may write the letters of a host name in another case (LOCALHOST, Localhost, localhosT); host names are "
+    "case-insensitive (RFC 3986 3.2.2), so it is the same host - the pin made under one spelling holds for every other - while the request line may carry either spelling",
 ]
 
 _CLIENT = None
@@ -277,6 +279,36 @@ class Overlap(Family):
         return "+".join(sorted(f"{o['r'][0]}:{o['r'][1] if o['r'][0] == 'error' else ''}:{len(o['conns'])}" for o in obs["together"]))
 
 
+SPELLS = [None, "upper", "title", "mixed", "last"]
+
+
+def recase(name: str, how) -> str:
+    """another spelling of the same (case-insensitive) host name"""
+    if how == "upper":
+        return name.upper()
+    if how == "title":
+        return name.title()
+    if how == "mixed":
+        return "".join(ch.upper() if i % 2 else ch for i, ch in enumerate(name))
+    if how == "last":
+        i = max((j for j, ch in enumerate(name) if ch.isalpha()), default=None)
+        return name if i is None else name[:i] + name[i].upper() + name[i + 1:]
+    return name
+
+
+def hop_url(h, ports) -> str:
+    return f"gemini://{recase(h['host'], h.get('spell'))}:{ports[h['peer']]}{h['path']}"
+
+
+def fold_host(u: str) -> str:
+    """a gemini URL / request line with the authority in lower case (the request may name the host in either spelling)"""
+    if not u.startswith("gemini://"):
+        return u
+    rest = u[len("gemini://"):]
+    cut = min((rest.index(ch) for ch in "/?#" if ch in rest), default=len(rest))
+    return "gemini://" + rest[:cut].lower() + rest[cut:]
+
+
 class Live(Family):
     """the full GeminiClient (TOFU on, temporary pin store) against up to three scripted loopback TLS servers that
     count TCP connections and log request lines: bound, scheme, pin check on every hop, faults (a server that drops
@@ -289,6 +321,15 @@ class Live(Family):
 
     def gen(self, rng: random.Random, n: int):
         hosts = ["localhost", "127.0.0.1", "127.0.0.2"]
+        # a host that comes back later in the chain with another certificate AND written in another case: the same host, the same pin
+        fixed = []
+        for k, (s0, s1) in enumerate([(None, "upper"), ("upper", None), ("title", "last"), (None, "mixed"), (None, "last"), ("mixed", "upper")]):
+            hops = [{"peer": k % 3, "host": "localhost", "path": "/h0", "cert": "ec", "spell": s0},
+                    {"peer": (k + 1) % 3, "host": hosts[k % 3], "path": "/h1?q=1", "cert": "rsa"},
+                    {"peer": k % 3, "host": "localhost", "path": "/h2", "cert": "ec2", "spell": s1}]
+            fixed.append({"max": 4, "follow": True, "hops": hops, "kind": "revisit-swap", "final": 20, "code": 30 + k % 2})
+        for c in self.share(fixed):
+            yield c
         for i in range(n):
             nh = rng.randint(1, 4)
             hops = []
@@ -312,6 +353,17 @@ class Live(Family):
                 hops[-1]["cert"] = "ec2" if hops[0]["cert"] != "ec2" else "rsa"
             elif kind == "revisit-swap":
                 case["kind"] = "chain"
+            if case["kind"] == "revisit-swap" and rng.random() < 0.5:
+                # ... and the host that comes back is a NAME, written in another case the second time (or the first)
+                hops[0]["host"] = hops[-1]["host"] = "localhost"
+                a, b = rng.sample(SPELLS, 2)
+                hops[0]["spell"], hops[-1]["spell"] = a, b
+                for h in hops[1:-1]:                      # the hops between go elsewhere
+                    if (h["peer"], h["host"]) == (hops[0]["peer"], "localhost"):
+                        h["host"] = "127.0.0.1"
+            for h in hops:
+                if h["host"] == "localhost" and "spell" not in h and rng.random() < 0.3:
+                    h["spell"] = rng.choice(SPELLS[1:])
             if kind == "drop":
                 case["drop_at"] = rng.randrange(nh)
             case["code"] = rng.choice([30, 31, 31])
@@ -341,7 +393,7 @@ class Live(Family):
         """reference walk straight from the property text (independent of the Lean model)"""
         hops, mx = case["hops"], case["max"]
         code = case.get("code", 30)
-        urls = [f"gemini://{h['host']}:{ports[h['peer']]}{h['path']}" for h in hops]
+        urls = [hop_url(h, ports) for h in hops]
         conns, pins = [], ({} if pins is None else pins)
         for j, h in enumerate(hops):
             if case["follow"] and (urls[j] in urls[:j]):
@@ -393,7 +445,7 @@ class Live(Family):
             p.take_log(2.0)
         hops = case["hops"]
         code = case.get("code", 30)
-        urls = [f"gemini://{h['host']}:{ports[h['peer']]}{h['path']}" for h in hops]
+        urls = [hop_url(h, ports) for h in hops]
 
         def push_all():
             for j, h in enumerate(hops):
@@ -574,12 +626,13 @@ class Live(Family):
 
         def seq_ok(g, w):
             # a server that speaks first may have answered (and been hung up on) before the request line left the client
-            return len(g) == len(w) and all(a == b or (a == "" and eager[i]) for i, (a, b) in enumerate(zip(g, w)))
+            # (the request line may name the host as the URL spelled it or in lower case)
+            return len(g) == len(w) and all(a == b or fold_host(a) == fold_host(b) or (a == "" and eager[i]) for i, (a, b) in enumerate(zip(g, w)))
 
         if exp.get("silent"):
             # the hop whose certificate changed must have received no request bytes at all
             if len(got) != len(want_conns) or got[-1] != "" or not seq_ok(got[:-1], want_conns[:-1]):
-                return ("pin-not-checked", f"a pinned host presented another certificate on hop {len(want_conns)}: requests seen {got}, result {obs['r']}")
+                return ("pin-not-checked", f"a pinned host presented another certificate on hop {len(want_conns)} (URLs of the chain: {want_conns}): requests seen {got}, result {obs['r']}")
         elif not seq_ok(got, want_conns):
             return ("connections", f"connections {got}, expected {want_conns} (result {obs['r']}, expected {exp['r']})")
         if exp["r"] == ["error", "*"]:
